@@ -354,4 +354,80 @@ example :
     (∀ n x, bnOfNode (atomN n) x = bnOf .atom x) ∧ (∀ n, (atomN n).children.length ≠ 2) := by
   exact ⟨fun n x => rfl, fun n => by simp [Ecal.Parse.Node.children]⟩
 
+/-! ## Part 5 (step 3′): the purity flag only matters under a product -/
+
+/-- the check behind `flag_irrelevant`: for every parent head of the table other than `times`, every child head and
+    both child positions the extracted rule gives the same answer for both values of the ppIsProductChain flag -/
+def flagCheck (br : Head → Head → Nat → Bool → Bool) : Bool :=
+  allHeads.all fun p => p == .bin iTimes ||
+    allHeads.all fun c => [0, 1].all fun i => br p c i true == br p c i false
+
+/-- **step 3′: under any parent other than `times` the extracted rule ignores the purity flag** (a `decide` over the
+    regenerated rule and table, like `generated_rule_suffices`; it stays true for any rewrite of ppNeedsBrackets that
+    consults ppIsProductChain only under a product) -/
+theorem flag_irrelevant_check : Ecal.Gen.C08.shapeOk = true → flagCheck genBr = true := by decide
+
+theorem flag_irrelevant (hs : Ecal.Gen.C08.shapeOk = true) (p c : Head) (i : Nat) (b1 b2 : Bool)
+    (hp : inTable p = true) (hc : inTable c = true) (hi : i < 2) (hne : p ≠ .bin iTimes) :
+    genBr p c i b1 = genBr p c i b2 := by
+  have h := flag_irrelevant_check hs
+  simp only [flagCheck, List.all_eq_true, Bool.or_eq_true, beq_iff_eq] at h
+  have hp' : p ∈ allHeads := by simpa [inTable] using hp
+  have hc' : c ∈ allHeads := by simpa [inTable] using hc
+  have hi' : i ∈ [0, 1] := by
+    have : i = 0 ∨ i = 1 := by omega
+    rcases this with h | h <;> simp [h]
+  have := (h p hp').resolve_left hne c hc' i hi'
+  cases b1 <;> cases b2 <;> simp [this]
+
+/-- the purity flag `annotW` hands to the rule for an operand `c` of `p` -/
+def annotFlag : Expr → Expr → Bool
+  | .bin k _ _, c => chainPure realPowers realExc k (realPowers.bp k) c
+  | _, _ => true
+
+theorem inTable_head_of_headsIn (c : Expr) (h : headsIn inTable c = true) : inTable c.head = true := by
+  cases c with
+  | atom n => exact (by decide : inTable .atom = true)
+  | bin k l r => simp only [headsIn, Bool.and_eq_true] at h; exact h.1.1
+  | pre k x => simp only [headsIn, Bool.and_eq_true] at h; exact h.1
+
+open Ecal.Parse in
+/-- **step 3 complete: for EVERY parent of the real table, the printer model's `bracketRule` on the nodes of an operator
+    tree takes exactly the decision `annotW realBr` takes** (`annotW` wraps operand `c` of `p` iff
+    `realBr p.head c.head i (annotFlag p c)`): under a product by `bracketRule_times`, elsewhere because the rule ignores
+    the flag (`flag_irrelevant`). Hypotheses: the extracted rule is in force, atoms look like identifiers to the rule,
+    heads of the table, child position 0 or 1, fuel of `isProductChain` above the left spine. -/
+theorem bracketRule_annotW (hs : Ecal.Gen.C08.shapeOk = true) (atomN : Nat → Ecal.Parse.Node)
+    (hatom : ∀ n x, bnOfNode (atomN n) x = bnOf .atom x) (hat : ∀ n, (atomN n).children.length ≠ 2)
+    (p c : Expr) (i : Nat) (hi : i < 2) (hp : inTable p.head = true) (hsp : spine c < 100000)
+    (hin : headsIn inTable c = true) :
+    bracketRule (ofExpr atomN p) (ofExpr atomN c) i = realBr p.head c.head i (annotFlag p c) := by
+  by_cases hpt : p.head = .bin iTimes
+  · cases p with
+    | bin k l r =>
+      simp only [Expr.head, Head.bin.injEq] at hpt
+      subst hpt
+      exact bracketRule_times hs atomN hatom hat l r c i hsp hin
+    | atom n => simp [Expr.head] at hpt
+    | pre k x => simp [Expr.head] at hpt
+  · rw [bracketRule_ofExpr hs atomN hatom]
+    have hr : realBr = genBr := by simp [realBr, hs]
+    rw [hr]
+    exact flag_irrelevant hs _ _ i _ _ hp (inTable_head_of_headsIn c hin) hi hpt
+
+/-- `annotFlag` is literally the flag in `annotW` -/
+example (br : Head → Head → Nat → Bool → Bool) (k : Nat) (l r : Expr) :
+    annotW realPowers realExc br (.bin k l r) =
+      .bin k (wrap (br (.bin k) l.head 0 (annotFlag (.bin k l r) l)) (annotW realPowers realExc br l))
+        (wrap (br (.bin k) r.head 1 (annotFlag (.bin k l r) r)) (annotW realPowers realExc br r)) := rfl
+
+/-- `bracketRule_annotW` is not vacuous: all its hypotheses hold for identifier atoms, the current tables and e.g. the
+    right operand of the first infix operator of the table -/
+example :
+    let atomN : Nat → Ecal.Parse.Node := fun _ => Ecal.Parse.Node.mk "identifier" none 0 .none .none [] []
+    bracketRule (ofExpr atomN (.bin 0 (.atom 0) (.atom 1))) (ofExpr atomN (.atom 1)) 1 =
+      realBr (.bin 0) .atom 1 (annotFlag (.bin 0 (.atom 0) (.atom 1)) (.atom 1)) :=
+  bracketRule_annotW rfl _ (fun _ _ => rfl) (fun _ => by simp [Ecal.Parse.Node.children]) _ _ 1 (by decide) (by decide)
+    (by decide) (by decide)
+
 end Ecal.C08.TX
